@@ -194,9 +194,9 @@ func init() {
 			return call(i, fr, token.NoPos, pf, nil)
 		},
 		"verifChildProcess": func(fr *frame, args []value) value { return false },
-		"verifTries":   func(fr *frame, args []value) value { return 1 },
-		"verifSleepMs": func(fr *frame, args []value) value { return nil },
-		"verifTier":    func(fr *frame, args []value) value { return fr.i.run.opts.Tier },
+		"verifTries":        func(fr *frame, args []value) value { return 1 },
+		"verifSleepMs":      func(fr *frame, args []value) value { return nil },
+		"verifTier":         func(fr *frame, args []value) value { return fr.i.run.opts.Tier },
 		"verifAssertKnown": func(fr *frame, args []value) value {
 			// verifAssertKnown(c, label, kfID, inClass): like verifAssert, but if kfID is a
 			// listed known finding, violations inside the class predicate are reported as
